@@ -188,7 +188,45 @@ func genC01Path(t *rapid.T, rootName string, pool hx.PathPool, l string) string 
 	if strings.Contains(p, "..") && len(p) < 4096 && rapid.IntRange(0, 5).Draw(t, l+"-disguise") == 0 {
 		p = c01Disguise(t, p, l)
 	}
+	if len(p) < 2048 && rapid.IntRange(0, 5).Draw(t, l+"-pad") == 0 {
+		p = c01Pad(t, p, l, false)
+	}
+	if rapid.IntRange(0, 11).Draw(t, l+"-longescape") == 0 {
+		// directed: exactly one step above the root, into a sibling (the only escape a prefix test on the joined path
+		// would let through), spelled longer than PATH_MAX
+		sib := rapid.SampledFrom([]string{rootName + "-other", rootName + "x", rootName + ".bak"}).Draw(t, l+"-le-sib")
+		inner := rapid.SampledFrom([]string{c01Marker + "_a.txt", "sub/" + c01Marker + "_b", c01Marker + "_c.bin", "PS3ISO/g.iso", "new_" + l, ""}).Draw(t, l+"-le-inner")
+		start := rapid.SampledFrom([]string{"/../", "../", "/sub/../../", "/PS3ISO/../../"}).Draw(t, l+"-le-start")
+		p = c01Pad(t, start+sib+"/"+inner, l+"-le", true)
+	}
 	return p
+}
+
+// c01Pad stretches a path with elements that vanish lexically ("./", doubled separators, "x/../") to a length at or next
+// to the limits names and paths have (NAME_MAX, PATH_MAX, the 16-bit length field): the same place, spelled long - for
+// code that treats long names differently from short ones.
+func c01Pad(t *rapid.T, p string, l string, long bool) string {
+	unit := rapid.SampledFrom([]string{"./", "/", "sub/../", "nonexistent/../", "././/"}).Draw(t, l+"-padunit")
+	target := rapid.SampledFrom([]int{255, 256, 1023, 1025, 4095, 4096, 4097, 4200, 8192, 32768, 65535}).Draw(t, l+"-padlen")
+	if long && target < 4097 {
+		target = 4097 + target
+	}
+	if strings.Contains(p, "{OUTER}") && target > 60000 {
+		target = 60000 // the placeholder grows when it is replaced by the real path
+	}
+	lead := ""
+	if strings.HasPrefix(p, "/") {
+		lead, p = "/", p[1:]
+	}
+	n := (target - len(lead) - len(p) - 1) / len(unit)
+	if n < 1 {
+		return lead + p
+	}
+	out := lead + strings.Repeat(unit, n) + p
+	if unit == "/" && lead == "" {
+		out = "/" + out // a relative path must not become "//..." by accident: keep it rooted explicitly
+	}
+	return out
 }
 
 func genC01PathPlain(t *rapid.T, rootName string, pool hx.PathPool, l string) string {
@@ -324,9 +362,12 @@ func c01Classify(c c01Case, st *hx.Stats) {
 		if r.Path == "" && r.Op != "OPEN_DIR" {
 			continue
 		}
-		_, _, esc := m.Resolve(string(r.Path))
+		_, cleaned, esc := m.Resolve(string(r.Path))
 		p := string(r.Path)
 		var shape []string
+		if len(p) > 4096 && len(cleaned) < 1024 {
+			shape = append(shape, "longer than PATH_MAX as sent, short once cleaned")
+		}
 		if esc {
 			shape = append(shape, "leaves-root")
 		}
